@@ -9,6 +9,15 @@ KERNELS = {
         # user side: flip every node to STOPPING (and queue its stopping task) before looking for the pending action future
         dict(name="stop_flips_before_cancel", file=ASYNC, func="AsyncGraph.stop",
              loc=("stmt_order", ["fs = [n._stop(timeout=timeout) for n in self._async_nodes.values()]", "try:", "[f.result() for f in fs]"]), props=["C05"]),
+        # a wrapper flips to STOPPING before it queues its stopping task (which ends by setting STOPPED): the other order lets the task
+        # finish first and the flip overwrite STOPPED
+        dict(name="node_flips_before_stopping_task", file=ASYNC, func="_AsyncNodeWrapper._stop",
+             loc=("stmt_order", ["with self._lock:", "self._state = Async.STOPPING", "f = self._submit(_stopping, stopping=True)"]), props=["C05"]),
+        dict(name="conn_flips_before_stopping_task", file=ASYNC, func="_AsyncConnectionWrapper.stop",
+             loc=("stmt_order", ["with self._lock:", "self._state = Async.STOPPING", "f = self._submit(_stopping, stopping=True)"]), props=["C05"]),
+        # a node is RUNNING before it hands its first task to its worker (the worker drops the first output timestamp otherwise)
+        dict(name="node_running_before_first_task", file=ASYNC, func="_AsyncNodeWrapper._start",
+             loc=("stmt_order", ["self._state = Async.RUNNING", "_f = self._submit(self.push_scheduled_ts)"]), props=["C05"]),
         # the read of the pending-action deque is a single indexing operation guarded by IndexError (no separate length check)
         dict(name="stop_cancel_atomic", file=ASYNC, func="AsyncGraph.stop",
              loc=("stmt_order", ["try:", "self._synchronizer.action[-1].cancel()"], ["if len(self._synchronizer.action) > 0"]), props=["C05"]),
